@@ -23,9 +23,10 @@ state kept between scans, error paths). Every change was re-confirmed by me in i
 patch applies, `go build ./...`, full suite green with the change, demonstration fails with it and passes without it)
 and then run against the property's **quick** check (`bin/mutate`: `git -C /repo apply`, `bin/check <id>`,
 `git -C /repo checkout -- .`). They are kept under `seeded/<property>-<n>/` (patch.diff, demo_test.go, notes.md,
-meta.json). In addition `bin/own_mutants.py` applies 66 mechanical mutants, most taken from the M lists of section 4
-(boundary operators, dropped guards, swapped rates ...): 65 are caught; the remaining one (scale_on_starve forcing two
-nodes instead of one) does not contradict C06's "at least one node" (`mutants-own/RESULTS.md`).
+meta.json). In addition `bin/own_mutants.py` applies 68 mechanical mutants, most taken from the M lists of section 4
+(boundary operators, dropped guards, swapped rates ...): 66 are caught; of the remaining two one (scale_on_starve forcing two
+nodes instead of one) does not contradict C06's "at least one node", the other sits in the lister wiring that the hook
+replaces (`mutants-own/RESULTS.md`).
 
 First round: 34 of 40 caught at first try. The six misses and what was strengthened: C07-2 (needs a failed 2nd
 terminate of a force batch followed by a scale-up in the same scan: scale-up oracles now stay on when faults are confined
